@@ -167,7 +167,7 @@ def run_trace(seed):
     pr = cand0.copy() if isinstance(cand0, DiffuseDroplet) else DiffuseDroplet.from_droplet(cand0)
     w_start = pr.interface_width if pr.interface_width is not None else h
     pr.interface_width = w_start
-    w2 = int(np.floor(2 * w_start))
+    w2 = int(np.floor(2 * w_start / h))     # in cells
     mask0 = pr._get_phase_field(grid, dtype=bool)
     support = bool(mask0.any())
     counts = {}
